@@ -728,6 +728,10 @@ func (u *Unit) modifiedBy(st *State, run func(s *State) []*State) (vars map[type
 	u.freshOnly = map[string]bool{}
 	vars, heaps, gvars = map[types.Object]bool{}, map[string]bool{}, map[string]bool{}
 	for _, o := range outs {
+		if o.leftLoop || o.ctl != "" {
+			// does not flow back to the loop head: its effects are not part of the head state
+			continue
+		}
 		for k, v := range o.vars {
 			if ov, ok := st.vars[k]; ok && !sameVal(ov, v) {
 				vars[k] = true
@@ -879,6 +883,7 @@ func splitLoopOutcomes(outs []*State, label string) (cont, brk, other []*State) 
 			cont = append(cont, o)
 		case o.ctl == "break" && (o.label == "" || o.label == label):
 			o.ctl, o.label = "", ""
+			o.leftLoop = true
 			brk = append(brk, o)
 		default:
 			other = append(other, o)
@@ -887,7 +892,22 @@ func splitLoopOutcomes(outs []*State, label string) (cont, brk, other []*State) 
 	return
 }
 
+func clearLeft(states []*State) []*State {
+	for _, s := range states {
+		s.leftLoop = false
+	}
+	return states
+}
+
 func (u *Unit) execFor(st *State, x *ast.ForStmt, label string) []*State {
+	return clearLeft(u.execFor1(st, x, label))
+}
+
+func (u *Unit) execRange(st *State, x *ast.RangeStmt, label string) []*State {
+	return clearLeft(u.execRange1(st, x, label))
+}
+
+func (u *Unit) execFor1(st *State, x *ast.ForStmt, label string) []*State {
 	n := u.loopOrd[x]
 	ls := u.loopSpec(n)
 	cur := []*State{st}
@@ -1003,7 +1023,7 @@ func (u *Unit) unrollFor(c *State, x *ast.ForStmt, label string, k int) []*State
 	return out
 }
 
-func (u *Unit) execRange(st *State, x *ast.RangeStmt, label string) []*State {
+func (u *Unit) execRange1(st *State, x *ast.RangeStmt, label string) []*State {
 	n := u.loopOrd[x]
 	ls := u.loopSpec(n)
 	coll := u.eval(st, x.X)
